@@ -99,7 +99,15 @@ pub fn run(tier: Tier, _replay: Option<Value>) -> ! {
                             }
                             rep.fail(Failure { case: format!("{op} p={:?} v={:?} extglob={extglob}", p, v), tags, expected: expected.to_string(), observed: g.clone(), oracle: oracle.into() });
                         };
-                        if g != want[oi] {
+                        // Two places where bash's substitution disagrees with bash's own matching (shown by
+                        // its `#`/`%` operators on the same pattern and value) are not used as an oracle:
+                        // a pattern ending in an escaped `\*` never matches in ${v/p/r} (bash takes the last
+                        // character for an unescaped star when it anchors the pattern), and an extglob group
+                        // with no alternative at all, `?()`, matches "" for removal but not for replacement.
+                        let bash_quirk = oi >= 4 && (p.ends_with("\\*") || p.contains("()"));
+                        if bash_quirk {
+                            rep.add("substitution_rows_skipped_bash_inconsistent_with_itself", 1);
+                        } else if g != want[oi] {
                             fail("bash", &want[oi], &mut rep);
                         }
                         // the bash-independent law for # ## % %%
@@ -124,6 +132,67 @@ pub fn run(tier: Tier, _replay: Option<Value>) -> ! {
                 }
             }
         }
+    }
+    // ---------------------------------------------------------------- replacement texts
+    // The replacement of ${v/p/r} is text (after expansion), apart from bash 5.2's unquoted `&`: every
+    // replacement of <= 2 symbols over the characters a regex engine or a substitution routine could
+    // take for syntax, unquoted and quoted, for every substitution operator.
+    {
+        let rsyms = ["a", "$", "0", "1", "&", "\\", "/", "{", "}"];
+        let reps: Vec<String> = enumerate::strings(&rsyms, tier.pick(2, 3));
+        let rpats = ["a", "*", "?", "", "a*", "[ab]", "b"];
+        let rvals: Vec<String> = ["", "a", "ab", "aab", "é", "ba"].iter().map(|s| s.to_string()).collect();
+        let rops = ["${v/$p/$r}", "${v//$p/$r}", "${v/#$p/$r}", "${v/%$p/$r}", "${v/$p/\"$r\"}", "${v//$p/\"$r\"}", "${v/#$p/\"$r\"}", "${v/%$p/\"$r\"}"];
+        let body = format!("for r in \"${{R[@]}}\"; do for p in \"${{P[@]}}\"; do for v in \"${{V[@]}}\"; do vargs {}; done; done; done\n", rops.iter().map(|o| format!("\"{o}\"")).collect::<Vec<_>>().join(" "));
+        let rchunks: Vec<&[String]> = reps.chunks(16).collect();
+        let rp: Vec<String> = rpats.iter().map(|s| s.to_string()).collect();
+        let bcases: Vec<Value> = rchunks.iter().map(|c| json!({"s": format!("set -f\n{body}"), "arrays": {"R": c, "P": rp, "V": rvals}})).collect();
+        let brush = common::run_scripts(&bcases, 120_000);
+        let scripts: Vec<String> = rchunks.iter().map(|c| format!("{}set -f\n{}{}{}{body}", bash::BASH_VARGS, bash_array("R", c), bash_array("P", &rp), bash_array("V", &rvals))).collect();
+        let bashr = bash::run_files(bash::BASH, &scripts, 120_000);
+        for (ci, c) in rchunks.iter().enumerate() {
+            let br = if brush[ci].crash.is_some() { vec![] } else { common::parse_vargs_stream(&brush[ci].out) };
+            let bo_s = bashr[ci].out_str();
+            let bo = common::parse_vargs_stream(&bo_s);
+            let mut k = 0;
+            for r in c.iter() {
+                for p in &rp {
+                    for v in &rvals {
+                        let want = bo.get(k).cloned().unwrap_or_default();
+                        let got = br.get(k).cloned().unwrap_or_default();
+                        k += 1;
+                        if want.len() != rops.len() {
+                            rep.add("bash_records_missing", 1);
+                            continue;
+                        }
+                        for (oi, op) in rops.iter().enumerate() {
+                            rep.evaluations += 1;
+                            let g = got.get(oi).cloned().unwrap_or_else(|| brush[ci].crash.clone().map(|c| format!("CRASH {c}")).unwrap_or_else(|| "<missing>".into()));
+                            if g != *v {
+                                rep.nontrivial.insert(format!("{op}|{p}|{v}|{r}"));
+                            }
+                            if g != want[oi] {
+                                let mut tags = vec![format!("op:{op}"), "replacement".to_string()];
+                                if r.contains('&') {
+                                    tags.push(if oi < 4 { "rep:unquoted-amp".into() } else { "rep:quoted-amp".into() });
+                                }
+                                if r.contains('\\') {
+                                    tags.push("rep:backslash".into());
+                                }
+                                if r.contains('$') {
+                                    tags.push("rep:dollar".into());
+                                }
+                                if p.is_empty() {
+                                    tags.push("pat:empty".into());
+                                }
+                                rep.fail(Failure { case: format!("{op} p={:?} v={:?} r={:?}", p, v, r), tags, expected: want[oi].clone(), observed: g, oracle: "bash".into() });
+                            }
+                        }
+                    }
+                }
+            }
+        }
+        rep.set("replacement_texts", reps.len() as u64);
     }
     // ---------------------------------------------------------------- all other operators, one script per form
     let small: Vec<String> = vec!["", "a", " a b ", "abcabc", "é*\n", "aBc", "a b", "*"].into_iter().map(String::from).collect();
